@@ -242,6 +242,9 @@ def plan(tier: str):
     items.append(("xref", ("a", "b.a")))
     items.append(("xref", ("", "a")))
     items.append(("xref", ("a.b", "")))
+    items.append(("xref+alias-field", ("", "a")))
+    items.append(("xref+alias-field", ("a", "a.b.a")))
+    items.append(("xref+alias-field", ("a.b", "a.a")))
     items.append(("multi", None))
     if tier == "thorough":
         names = [a.name for a in AT.ATOMS]
@@ -263,11 +266,14 @@ def run_item(kind: str, arg, t: Tally) -> List[Violation]:
         fails = check_program(files, list(AT.MULTI_PACKAGES), label, t)
         case = {"kind": "multi"}
     else:
+        # cross-package references; "xref+alias-field" additionally gives the referrer plain fields
+        # named like the module aliases of the target package
         r, tg = arg
-        files, _ = c13.pair_program(r, tg)
-        label = ["xref:" + c13.relation(r, tg)]
+        alias = kind == "xref+alias-field"
+        files, _ = c13.pair_program(r, tg, alias_fields=alias)
+        label = [kind + ":" + c13.relation(r, tg)]
         fails = check_program(files, sorted({r, tg}), label, t)
-        case = {"kind": "xref", "referrer": r, "target": tg}
+        case = {"kind": kind, "referrer": r, "target": tg}
     return [Violation(["options", o, v] + label, f"[{v}] {d} -- {case}"[:500], case) for o, v, d in fails]
 
 
@@ -320,4 +326,4 @@ def replay(case: dict) -> List[Violation]:
         return run_item("atoms", (tuple(case["atoms"]), case["package"]), t)
     if case["kind"] == "multi":
         return run_item("multi", None, t)
-    return run_item("xref", (case["referrer"], case["target"]), t)
+    return run_item(case["kind"], (case["referrer"], case["target"]), t)
